@@ -40,6 +40,7 @@ class Hist {
   std::vector<HNode> nodes;
   std::vector<int> pool;                 // one entry per reference the client holds
   bool seen_shared = false;              // some item was referenced from two places at once
+  bool light = false;                    // build only: no getter-based comparison with the model after each step (C18 must not warm the tree up)
   bool exact_fault = false;              // W2: use the fault index as given (no modulo)
   bool image_check = false;              // C06: compare byte images of all pre-existing blocks around a refused op
   uint64_t shared_releases = 0, items_released = 0, copies = 0, copy_then_touched = 0, refusals_capacity = 0, refusals_index = 0, inserts_ok = 0, cascades3 = 0;
